@@ -371,6 +371,18 @@ func runC14(c *ctx) error {
 					pe := copyEnv(penv)
 					pe[kk] += "!"
 					differ("a signed pipeline env value +1 char", st, repo, pe)
+					// the name is signed as spelled: the same value under the name in another case is another variable
+					for _, alt := range []string{strings.ToUpper(kk), strings.ToLower(kk)} {
+						if _, taken := penv[alt]; alt != kk && !taken {
+							if _, shadow := st.Env[alt]; !shadow {
+								pe2 := copyEnv(penv)
+								pe2[alt] = pe2[kk]
+								delete(pe2, kk)
+								differ("a signed pipeline env variable renamed to another case", st, repo, pe2)
+								break
+							}
+						}
+					}
 					break
 				}
 			}
